@@ -1,11 +1,12 @@
 #!/bin/bash
 # copy the artefacts a seeding agent left in /tmp/seedwt<round>-<ID> into /verif/seeded/<ID>-k/
 id=$1
-for k in 1 2 3 4 5 6 7 8 9 10 11; do
+for k in 1 2 3 4 5 6 7 8 9 10 11 12; do
   src=/tmp/seedwt-$id; [ -d /tmp/seedwt2-$id ] && [ $k -ge 3 ] && src=/tmp/seedwt2-$id
   [ $k -ge 6 ] && src=/tmp/seedwt3-$id
   [ $k -ge 8 ] && src=/tmp/seedwt4-$id
   [ $k -ge 10 ] && src=/tmp/seedwt5-$id
+  [ $k -ge 12 ] && src=/tmp/seedwt6-$id
   if [ -f $src/seed${id}_$k.diff ] && [ -f $src/demo${id}_$k.py ] && [ -f $src/meta${id}_$k.json ]; then
     d=/verif/seeded/$id-$k; mkdir -p $d
     cp $src/seed${id}_$k.diff $d/patch.diff; cp $src/demo${id}_$k.py $d/demo.py; cp $src/meta${id}_$k.json $d/meta.json
